@@ -12,7 +12,7 @@ import (
 func init() {
 	register(&propDef{
 		ID:          "C16",
-		Explanation: "Render equality between watch mode and a fresh build is not decided. Decides writer/reader agreement of the development text-file protocol and the coverage of the recompilation key: R1 every literal the generator can collect is a valid interpreted-string body without a raw newline (GEM, all literal emissions) — needed both for the Go file and for the one-literal-per-line text file; R2 (a) the separator constant the command joins the literals with equals the one both readers split with, (b) the emitted literal index is the 1-based position of the literal in the collected list (counter incremented, literal appended and index emitted in the same step) and the readers index [index-1] after an `index > len` rejection, (c) the literal is emitted between double quotes and the readers unquote \"<line>\", (d) writer and reader compute the text-file name with the same function; R3 the recompilation key (HasChanged) compares every generator option that changes emitted Go, the literal count and the expression list element-wise, and covers the kind of sink an expression is emitted into. NOT decided: file-system timing of the 100 ms cache, equality of rendered bytes.",
+		Explanation: "Render equality between watch mode and a fresh build is not decided. Decides writer/reader agreement of the development text-file protocol and the coverage of the recompilation key: R1 every literal the generator can collect is a valid interpreted-string body without a raw newline (GEM, all literal emissions) — needed both for the Go file and for the one-literal-per-line text file; R2 (a) the separator constant the command joins the literals with equals the one both readers split with, (b) the emitted literal index is the 1-based position of the literal in the collected list (counter incremented, literal appended and index emitted in the same step) and the readers index [index-1] after an `index > len` rejection, (c) the literal is emitted between double quotes and the readers unquote \"<line>\", (d) writer and reader compute the text-file name with the same function; R3 the recompilation key (HasChanged) compares every generator option that changes emitted Go, the literal count and the expression list element-wise, and covers the kind of sink an expression is emitted into; R4 within one debounce window of the watch loop the `needs recompilation` and `text updated` flags are accumulated (||) over all events, never overwritten by the last one. NOT decided: file-system timing of the 100 ms cache, equality of rendered bytes.",
 		Assumptions: []string{"strconv.Unquote inverts the generator's escapeQuotes (strconv.Quote without the outer quotes)"},
 		Trusted:     []string{"go/types", "go/parser", "x/tools go/packages", "strconv"},
 		Run:         runC16,
@@ -90,6 +90,15 @@ func runC16(c *Ctx) {
 	if len(readers) < 1 {
 		c.viol("C16.R2", "anchor-lost:text-file-readers", "", "no function reads the text file and splits it into literals")
 	}
+	// the runtime package (the reader generated code uses) must have such a split-reader of its own
+	hasRuntimeReader := false
+	for _, r := range readers {
+		if r.rel == "runtime" {
+			hasRuntimeReader = true
+		}
+	}
+	c.check(hasRuntimeReader, "C16.R2", modPath+"/runtime|text-file-split-reader", "", "the runtime reads the whole text file and splits it with a constant separator",
+		"package runtime no longer reads the development text file whole and splits it with a constant separator (e.g. a bufio.Scanner also strips \\r and fails on lines over 64 KiB): what the reader sees as literal N is no longer what the generator wrote as literal N")
 	for _, r := range readers {
 		p := c.pkg(r.rel)
 		c.check(r.sep == joinSep && joinSep == "\n", "C16.R2", funcKey(p, r.fd)+"|separator-agrees", c.pos(r.fd.Pos()), fmt.Sprintf("writer joins with %q, reader splits with %q", joinSep, r.sep),
@@ -324,6 +333,67 @@ func runC16(c *Ctx) {
 	c.count("distinct_expression_sink_contexts", len(contexts))
 	c.check(len(contexts) <= 1 || extra > 0, "C16.R3", key+"|key-covers-sink-kind", c.pos(hc.Pos()), "the key distinguishes the Go text around expressions",
 		fmt.Sprintf("the recompilation key holds only the text of the Go expressions, but the generator wraps an expression in %d different Go contexts (JoinStringErrs, SafeURL, ComponentScript, SanitizeStyleAttributeValues, ScriptContent…, if/for/switch…): moving the same expression to another kind of sink changes the Go code while HasChanged stays false", len(contexts)))
+	// R4: within one debounce window the recompile / reload flags accumulate over all events
+	if run := findFunc(gp, "Generate", "Run"); run == nil {
+		c.viol("C16.R4", "anchor-lost:Generate.Run", "", "generatecmd.Generate.Run not found")
+	} else {
+		nacc := 0
+		ast.Inspect(run.Body, func(n ast.Node) bool {
+			cc, ok := n.(*ast.CommClause)
+			if !ok || cc.Comm == nil {
+				return true
+			}
+			// case ge := <-ch
+			as, ok := cc.Comm.(*ast.AssignStmt)
+			if !ok || len(as.Lhs) != 1 {
+				return true
+			}
+			ev, ok := as.Lhs[0].(*ast.Ident)
+			if !ok {
+				return true
+			}
+			evOb := gp.TypesInfo.ObjectOf(ev)
+			for _, st := range cc.Body {
+				a2, ok := st.(*ast.AssignStmt)
+				if !ok || len(a2.Lhs) != 1 || len(a2.Rhs) != 1 {
+					continue
+				}
+				lhs, ok := a2.Lhs[0].(*ast.Ident)
+				if !ok {
+					continue
+				}
+				if t := gp.TypesInfo.TypeOf(lhs); t == nil || t.String() != "bool" {
+					continue
+				}
+				mentionsEvent := false
+				ast.Inspect(a2.Rhs[0], func(m ast.Node) bool {
+					if id, ok := m.(*ast.Ident); ok && gp.TypesInfo.ObjectOf(id) == evOb {
+						mentionsEvent = true
+					}
+					return true
+				})
+				if !mentionsEvent {
+					continue
+				}
+				nacc++
+				good := false
+				if be, ok := a2.Rhs[0].(*ast.BinaryExpr); ok && be.Op == token.LOR {
+					if x, ok := be.X.(*ast.Ident); ok && x.Name == lhs.Name {
+						good = true
+					}
+					if y, ok := be.Y.(*ast.Ident); ok && y.Name == lhs.Name {
+						good = true
+					}
+				}
+				c.check(good, "C16.R4", funcKey(gp, run)+"|accumulates:"+lhs.Name, c.pos(a2.Pos()), lhs.Name+" accumulates over the events of one window",
+					fmt.Sprintf("%s is overwritten by each event (%s) instead of accumulated with ||: when a change that needs recompilation is followed within the debounce window by a text-only change, the program is not rebuilt and keeps running old code against the new text file", lhs.Name, nodeText(c.fset, a2)))
+			}
+			return true
+		})
+		if nacc < 2 {
+			c.viol("C16.R4", funcKey(gp, run)+"|accumulators", c.pos(run.Pos()), fmt.Sprintf("expected the recompile and the text-update flag to be accumulated from post-generation events, found %d", nacc))
+		}
+	}
 	c.floor("C16.R2", 8)
 	c.floor("C16.R3", 6)
 }
